@@ -31,6 +31,11 @@ class StateView:
             # give merged / updated arrays a name so that they can be used in E-matching patterns
             v = self.I.name_seq(v, name)
             self.ctx.setvar_existing(name, v)
+        elif hasattr(v, 'named'):
+            v2 = v.named(self.I, name)
+            if v2 is not v:
+                self.ctx.setvar_existing(name, v2)
+                v = v2
         return v
 
     def field(self, ref, name):
@@ -294,7 +299,9 @@ class ExecCtx:
         for n, et in ls.havoc_types.items():
             cur = self.lookup(n)
             if isinstance(cur, (list, tuple)) and not isinstance(cur, RowVal):
-                self.setvar(n, I.lib.seq_from_concrete(self, cur, et, n))
+                self.setvar_existing(n, I.lib.seq_from_concrete(self, cur, et, n))
+        for n, conv in ls.convert.items():
+            self.setvar_existing(n, conv(I, self.lookup(n)))
         self.emit_inv(ls, view, z3.IntVal(0), tag + "/inv-entry", 'loop-entry')
         choice = I.choose(2)
         # 2. havoc
@@ -623,7 +630,11 @@ class ExecCtx:
 
     def ev_Call(self, e):
         I = self.I
-        f = self.eval(e.func)
+        if isinstance(e.func, ast.Attribute):
+            obj = self.eval(e.func.value)
+            f = I.lib.getattr(self, obj, e.func.attr, e.func, for_call=True)
+        else:
+            f = self.eval(e.func)
         args = []
         for a in e.args:
             if isinstance(a, ast.Starred):
